@@ -21,6 +21,7 @@ RULE = ('BlockSpecs of four families: certified contractions (affine and mildly 
         'makers x = x*x + c, 1e200*y; slowly converging systems under small caps. Non-trivial: >= 3 simultaneous '
         'variables with a cycle, or an expansive/overflow member; and horizon >= 2 reached or the divergence observed. '
         'Distinct: sha1 of the spec.')
+RULE = RULE + (' Input shapes added after the seeded-change rounds (DESIGN.md section 8): ' + 'two solver objects alive at once with their own function under one name; a recursive block whose exp()/** raises OverflowError for good; time terms spelled (t-1)/(k-1); the solver configured before parsing, after it, or through the constructor.')
 ASSUMPTIONS = [
     'arithmetic-valued right-hand sides only (no boolean/complex values)',
     'Lambda_v is the generator-certified Lipschitz sum of row v; the bound follows from the stop rule '
